@@ -196,10 +196,9 @@ func toPropertyDescriptor(rt *runtime, value Value) property {
 
 func (rt *runtime) fromPropertyDescriptor(descriptor property) *object {
 	obj := rt.newObject()
-	if descriptor.isDataDescriptor() {
-		obj.defineProperty("value", descriptor.value.(Value), 0o111, false)
-		obj.defineProperty("writable", boolValue(descriptor.writable()), 0o111, false)
-	} else if getSet, isAccessor := descriptor.value.(propertyGetSet); isAccessor {
+	// Test for an accessor first: stored accessor properties (function "caller",
+	// error "stack") carry a write bit that is off rather than unset.
+	if getSet, isAccessor := descriptor.value.(propertyGetSet); isAccessor {
 		// An accessor property reports get and set even when both are undefined (8.10.4 step 4).
 		get := Value{}
 		if getSet[0] != nil {
@@ -211,6 +210,9 @@ func (rt *runtime) fromPropertyDescriptor(descriptor property) *object {
 		}
 		obj.defineProperty("get", get, 0o111, false)
 		obj.defineProperty("set", set, 0o111, false)
+	} else if descriptor.isDataDescriptor() {
+		obj.defineProperty("value", descriptor.value.(Value), 0o111, false)
+		obj.defineProperty("writable", boolValue(descriptor.writable()), 0o111, false)
 	}
 	obj.defineProperty("enumerable", boolValue(descriptor.enumerable()), 0o111, false)
 	obj.defineProperty("configurable", boolValue(descriptor.configurable()), 0o111, false)
